@@ -7,6 +7,7 @@ recorded known finding (class PendingExcessAtObservation); anything else is a vi
 import json, os, random, re
 import common as C
 import gen
+import motifs
 from trace import parse_cfg, USnap
 
 KF_CLASS = "PendingExcessAtObservation"
@@ -125,6 +126,10 @@ def run(pid, tier, seed, model_ok, replay):
             for i in range(n):
                 name, h = gen.gen_cache_case(rng, kind, i, profile=rng.choice(["tight", "admission", "expiry", "basic"]))
                 h = [l for l in h if l != "DROP"]
+                h2, pos, ins = insert_obs(rng, h)
+                pairs.append((name, h, h2, pos, ins))
+            for i in range(n // 2):
+                name, h = motifs.gen_motif_case(rng, kind, 6000 + i)
                 h2, pos, ins = insert_obs(rng, h)
                 pairs.append((name, h, h2, pos, ins))
             for i in range(n // 4):
